@@ -112,6 +112,10 @@ def run_cases(rng, n):
     for cid in range(n):
         kind = kinds[cid % len(kinds)]
         X = gen_matrix(rng, kind)
+        if kind == 'diag' and cid % 2 == 1:
+            X = X.astype(np.int64)            # integer-typed matrix with whole-number singular values
+        elif kind == 'random' and cid % 3 == 0:
+            X = np.asfortranarray(X)
         k = min(X.shape)
         # the economy factors give the bit-exact singular values the rule is applied to
         eco = pykoop.Tsvd().fit(X)
